@@ -522,6 +522,9 @@ def check_stability(c, spec):
             d2 = jround(holder[0].to_dict())
             compare(c, 'to_dict-twice', v, mk,
                     lambda d=d2, mk=mk: m_build(mk, d))
+    for (mk, name, m), d0, v in zip(ms, d_fresh, views):
+        if v is not None and mk == 'wf':
+            check_accessor_order(c, name, d0)
     if wb_view is not None:
         def bwb():
             s = sp.get_workbook_spec(wb_fresh, validate=False)
@@ -540,6 +543,65 @@ def check_stability(c, spec):
                       'rebuilding the workbook from its stored form failed: '
                       '%s: %s' % (type(e).__name__, str(e)[:200]))
     return ms, views, wb_view
+
+
+TASK_ACCESSORS = [
+    ('publish[SUCCESS]', lambda t: v_publish(t.get_publish(states.SUCCESS))),
+    ('publish[ERROR]', lambda t: v_publish(t.get_publish(states.ERROR))),
+    ('publish[SKIPPED]', lambda t: v_publish(t.get_publish(states.SKIPPED))),
+    ('on-success', lambda t: v_clause(t.get_on_success())),
+    ('on-error', lambda t: v_clause(t.get_on_error())),
+    ('on-complete', lambda t: v_clause(t.get_on_complete())),
+    ('on-skip', lambda t: v_clause(t.get_on_skip())),
+]
+
+
+def check_accessor_order(c, name, d0):
+    """Spec objects are cached and shared by every run of a definition:
+    what one accessor returns must not depend on which accessor was called
+    before (operation sequences of length 2 over the task accessors the
+    engine uses, against a fresh object), and using the object must not
+    change what it stores.  Only tasks that publish can be affected."""
+    try:
+        wf0 = sp.get_workflow_spec(json.loads(json.dumps(d0)))
+    except Exception:      # noqa
+        return
+    if wf0.get_type() == 'reverse':
+        return
+    names = [t.get_name() for t in wf0.get_tasks()
+             if 'publish' in json.dumps(t.to_dict(), default=str)]
+    for tn in names[:4]:
+        base = {}
+        for an, acc in TASK_ACCESSORS:
+            wf = sp.get_workflow_spec(json.loads(json.dumps(d0)))
+            try:
+                base[an] = jcanon(acc(wf.get_tasks()[tn]))
+            except Exception:      # noqa
+                base[an] = None
+        for a1, acc1 in TASK_ACCESSORS[:3]:
+            wf = sp.get_workflow_spec(json.loads(json.dumps(d0)))
+            t = wf.get_tasks()[tn]
+            try:
+                acc1(t)
+            except Exception:      # noqa
+                continue
+            for a2, acc2 in TASK_ACCESSORS:
+                if base[a2] is None:
+                    continue
+                c.facts['accessor_pairs'] += 1
+                try:
+                    r = jcanon(acc2(t))
+                except Exception:      # noqa
+                    continue
+                if r != base[a2]:
+                    c.problem(
+                        'unstable/accessor-order/%s-after-%s' % (a2, a1),
+                        'task %r of workflow %r: %s evaluated after %s on '
+                        'the same (cached) specification object gives %s, '
+                        'on a fresh object %s: using a specification '
+                        'changes it' % (tn, name, a2, a1, r[:300],
+                                        base[a2][:300]))
+                    return
 
 
 def check_stored(c, ms, views, wb_view):
